@@ -101,7 +101,8 @@ pub const VERSIONS: &[&str] = &[
     "1.0.0.post18446744073709551615", "4294967295!1.0", "4294967296!1.0", "1.0.dev4294967296", "1.0.0-rc.4294967295", "1.0.0rc4294967296",
     "1.2.3.4.5.6.7.8.9", "1.0a", "1.0.post", "1.0+", "1.0+a..b", "1.0.0-", "1.0.0+", "v", "V1.0", " 1.0.0", "1.0.0 ", "1.0.0\n",
     "1.0.0-a.b.c.d.e.f.g.h.i.j.k", "1.0.0-post.1.dev.2", "1.0.0-dev.1", "1.0.0-epoch.1", "1.0.0-epoch.1.alpha.2", "2.0.0-alpha",
-    "1.0.0+é", "1.0.0-ſ", "1.0.0-\u{0660}a", "1.0.0-alpha.beta", "1.0.0-0.3.7", "1.0.0-x-y-z.--",
+    "1.0.0-epoch.epoch.epoch", "1.0.0-post.post.post", "1.0.0-dev.dev.dev.1", "1.0.0-post.dev.post.dev", "1.0.0-alpha.alpha", "1.0.0-rc.1.rc.2",
+    "1.0.0-epoch.1.epoch.2", "1.0.0-alpha.1.post.2.post.3", "1.0.0-epoch.0", "1.0.0+é", "1.0.0-ſ", "1.0.0-\u{0660}a", "1.0.0-alpha.beta", "1.0.0-0.3.7", "1.0.0-x-y-z.--",
     "(schema:(core:[var(Major)],extra_core:[],build:[]),vars:(major:Some(1)))", "()", "(",
 ];
 
